@@ -405,13 +405,23 @@ ATTR_ANNS = ["int", "str", "float", "bool", "Optional[int]", "Optional[str]", "L
 ATTR_NAMES = [n for n in ARG_NAMES if not n.endswith("kwargs")] + ["host", "retries", "timeout", "verbose", "backoff", "port"]
 
 
-def gen_attr_classes(rng, k=1, annotation_only=0.06, rebind=0.1, **defkw):
+# values of an annotated attribute that ast_utils.get_value leaves as a node (a non-empty display, a call, an attribute
+# access, an operator expression)
+ATTR_NONSCALAR = ["(1, 2)", "[1]", "{1: 2}", "foo()", "np.x", "[-1, 'x', None]", "(1,)", "{'a': [1, (2,)]}", "1 + 2",
+                  "dict()", "os.path.join('a', 'b')"]
+TUPLE_TARGETS = ["lo, hi = 1, 2", "(lo, hi) = (0, 10)", "[lo, hi] = 1, 2", "lo, hi = hi0 = (3, 4)", "first, *others = 1, 2, 3"]
+
+
+def gen_attr_classes(rng, k=1, annotation_only=0.06, rebind=0.1, ann_nonscalar=0.0, tuple_target=0.0, **defkw):
     """k classes (k > 1: they share the class docstring text and the __init__ docstring text, everything else is drawn
     anew) whose body mixes annotated attributes (`a: int = 1`) and plain assignments (`b = 2`), mostly alternating, of
     which the class docstring documents none / a leading part / some / all (in or out of source order), with or without
     an __init__ (whose parameters may or may not be attributes as well) and other methods between the attributes.
     annotation_only: probability that an annotated attribute has no value; rebind: probability that one attribute is
-    bound a second time further down, in the other style.  -> [(src, tags)]"""
+    bound a second time further down, in the other style; ann_nonscalar (default 0: never, the stream of existing callers
+    is unchanged): probability that the value of an annotated attribute is a display / call / attribute / operator
+    expression (ATTR_NONSCALAR); tuple_target (default 0: never): probability that the body also holds an assignment whose
+    target is a tuple / list display (TUPLE_TARGETS; its names are no attribute of the drawn list).  -> [(src, tags)]"""
     names = rng.sample(ATTR_NAMES, rng.randint(2, 6))
     tags = ["attrs:%d" % len(names)]
     dmode = rng.choice(["nodoc", "summary", "prefix", "prefix", "some", "some", "all", "shuffled", "extra"])
@@ -458,6 +468,9 @@ def gen_attr_classes(rng, k=1, annotation_only=0.06, rebind=0.1, **defkw):
             if ann and annotation_only and rng.random() < annotation_only:
                 stmts.append("%s: %s" % (n, rng.choice(ATTR_ANNS)))
                 t.append("annotation-only")
+            elif ann and ann_nonscalar and rng.random() < ann_nonscalar:
+                stmts.append("%s: %s = %s" % (n, rng.choice(ATTR_ANNS), rng.choice(ATTR_NONSCALAR)))
+                t.append("ann-nonscalar")
             elif ann:
                 stmts.append("%s: %s = %s" % (n, rng.choice(ATTR_ANNS), rng.choice(ATTR_SCALARS + ATTR_EMPTY)))
             else:
@@ -470,6 +483,9 @@ def gen_attr_classes(rng, k=1, annotation_only=0.06, rebind=0.1, **defkw):
                 names[i], rng.choice(ATTR_SCALARS))
             stmts.insert(rng.randint(i + 1, len(stmts)), again)
             t.append("attr-rebound")
+        if tuple_target and rng.random() < tuple_target:
+            stmts.insert(rng.randint(0, len(stmts)), rng.choice(TUPLE_TARGETS))
+            t.append("tuple-target")
         blocks = [[s] for s in stmts]
         if inits is not None:
             isrc, iinfo = inits[j]
